@@ -19,7 +19,7 @@ Fixpoint xbuild (u : universe) (D : db) (s : xspec) : result dataid :=
   match s with
   | XStd d m k f => standardize u d m k f
   | XExp g d m k f => expand_data_id_x u D g d m k f
-  | XExpDc g s d k f => rbind (xbuild u D s) (fun x => expand_data_id_dc_x2 u D g d x k f)
+  | XExpDc g s d k f => rbind (xbuild u D s) (fun x => expand_data_id_dc_x3 u D g d x k f)
   | XSub s l => rbind (xbuild u D s) (fun x => subset u x l)
   | XStdDc s d k f => rbind (xbuild u D s) (fun x => standardize_dc2 u d x k f)
   | XUnion a b => rbind (xbuild u D a) (fun x => rbind (xbuild u D b) (fun y => union u x y))
